@@ -871,6 +871,10 @@ class PlaceHolder:
         result = self._result(result)
         if self._timestamps[0] is not None:
             result.time(self._timestamps[0])
+        # The tags are added for the duration of the test only: afterwards
+        # those that were not current before are taken away again (a tag the
+        # run carries anyway stays).
+        already_current = set(getattr(result, "current_tags", ()))
         result.tags(self._tags, set())
         result.startTest(self)
         if self._timestamps[1] is not None:
@@ -878,7 +882,7 @@ class PlaceHolder:
         outcome = getattr(result, self._outcome)
         outcome(self, details=self._details)
         result.stopTest(self)
-        result.tags(set(), self._tags)
+        result.tags(set(), set(self._tags) - already_current)
 
     def shortDescription(self):
         if self._short_description is None:
